@@ -283,10 +283,14 @@ def c18_unary_args(E, s):
         if kind == 'ttm':
             compat = compat & (i >= -M[0]) & (i < M[0])
     elif what == 'to_qtt':
-        ok, z, exc = attempt(E, lambda: x.to_qtt())
+        ms = s.get('mode_size', 2)
+        ok, z, exc = attempt(E, (lambda: x.to_qtt()) if ms == 2 else (lambda: x.to_qtt(mode_size=ms)))
         compat = True
         for n in N:
-            compat = compat & ((n == 1) | (n == 2) | (n == 4) | (n == 8))
+            pw = (n == 1)
+            for e in range(1, 5):
+                pw = pw | (n == ms ** e)
+            compat = compat & pw
     elif what == 'qtt_to_tens':
         orig = [E.dim('o%d' % i, 1, B * B) for i in range(s['do'])]
         ok, z, exc = attempt(E, lambda: x.qtt_to_tens(orig))
